@@ -244,7 +244,23 @@ ADDED6 = {
  'C18': 'Sixth wave: the library\'s locks are acquired with blocking calls only (R18i).',
  'C19': 'Sixth wave: inside the column loop of get_inverse_rows the rows are only XOR-accumulated (R19h).',
 }
-for _d in (ADDED, ADDED3, ADDED4, ADDED5, ADDED6):
+ADDED7 = {
+ 'C01': 'Seventh wave: prepare_fragments_for_decode refuses a header size only for being negative (R01g, every refusing comparison on a size is against 0); R02i, R06f shared.',
+ 'C02': 'Seventh wave: decode / reconstruct / fragments_needed refuse only over their arguments, k, m, local counts and verdicts of callees (R02i); fragments_to_string files a fragment under its own header index (R02j).',
+ 'C04': 'Seventh wave: RS encode - each parity buffer is cleared whole and filled by region_dot_product(data, parity[j], row k+j, k, blocksize), nothing else writes it (R04j); helper walks stated as the set of cells written (R04e); the GF table loop followed on a grid of elements (R04a).',
+ 'C05': 'Seventh wave: xor_reconstruct_one uses the very equation index_of_connected_parity selected (R05j); the tables a descriptor points at are never written (R05k).',
+ 'C06': 'Seventh wave: list bitmaps are consumed bit by bit in the adapters of the external back ends too (R06f over every back end).',
+ 'C07': 'Seventh wave: instance_create stores no member of the argument block other than member-to-member copies (R07d); R19i shared.',
+ 'C09': 'Seventh wave: fragments_to_string / get_fragment_partition read the index of every supplied fragment - their loop ends at the count or with an error (R09f).',
+ 'C10': 'Seventh wave: outside chksum_type == CHKSUM_CRC32 no payload CRC is computed and the mismatch flag is not raised (R10b).',
+ 'C13': 'Seventh wave: a slot of ec_backends_supported[] is read only for an index confined to the table in the unsigned reading (R13i); output parameters of type char** are covered by R13g.',
+ 'C14': 'Seventh wave: init / exit of a back end write no global (R14m); R18b shared.',
+ 'C16': 'Seventh wave: entries of the payload pointer arrays (views into fragments) are never handed to a deallocator (R16i); R13g shared.',
+ 'C17': 'Seventh wave: ownership typestate over the adapters of the external back ends, whose dlsym-bound entry points borrow their arguments (R17d); R16i shared.',
+ 'C18': 'Seventh wave: static locks are never destroyed or re-initialised (R18i).',
+ 'C19': 'Seventh wave: isa_l_encode hands ec_encode_data the block length and the arrays of the request; init expands tables from matrix + k*k (R19i).',
+}
+for _d in (ADDED, ADDED3, ADDED4, ADDED5, ADDED6, ADDED7):
     for _k, _v in _d.items():
         CHECKS[_k]['text'] += ' ' + _v
 
